@@ -297,7 +297,7 @@ class Evaluator:
                         return self.call_function(fn, [base], cls=v[1])
                     if "staticmethod" in decos:
                         return ("function", v[1], fn)
-                    return ("method", base, fn, v[1])
+                    return ("method", base, fn, v[1]) + tuple(v[3:4])
                 return v
             raise Unknown(f"field {attr}")
         if isinstance(base, tuple) and base and base[0] == "super":
@@ -311,6 +311,11 @@ class Evaluator:
                     if attr in c.attrs and isinstance(c.attrs[attr],
                                                       ast.Lambda):
                         return ("method", obj, c.attrs[attr], c)
+                    if attr in c.attrs:
+                        v = self.class_attr(c, attr)
+                        if isinstance(v, tuple) and v and v[0] == "function":
+                            return ("method", obj, v[2], v[1]) + tuple(v[3:4])
+                        return v
                 if c is cls:
                     seen = True
             if attr == "__init__":
@@ -377,7 +382,7 @@ class Evaluator:
         except Unknown:
             return None
         if isinstance(v, tuple) and v and v[0] == "function":
-            return ("method", obj, v[2], v[1])
+            return ("method", obj, v[2], v[1]) + tuple(v[3:4])
         return None
 
     NOTIMPL = ("notimplemented",)
@@ -701,7 +706,7 @@ class Evaluator:
                                           else None)
             if f[0] == "method":
                 return self.call_function(f[2], [f[1]] + list(args), kwargs,
-                                          cls=f[3])
+                                          cls=f[3], closure=f[4] if len(f) > 4 else None)
         raise Unknown(f"call of {f!r}")
 
     def _isinstance(self, v, t):
